@@ -74,6 +74,28 @@ def kind_of(x):
     return None
 
 
+def describe(t):
+    """Compact witness description of an operand (no values)."""
+    try:
+        if is_q(t):
+            t = fp.unwrap_param(t)
+            inn, meta = fp.inner(t)
+            d = {"cls": type(t).__name__, "shape": list(t.shape), "stride": list(t.stride()), "dtype": str(t.dtype),
+                 "qtype": t.qtype.name, "axis": t.axis}
+            for k, v in inn.items():
+                vv = oracles.plain(v) if not fp.is_wrapper(v) else v
+                d[k] = {"shape": list(vv.shape), "stride": list(vv.stride()), "dtype": str(vv.dtype)}
+                if k == "_scale":
+                    sv = oracles.plain(v).to(F64)
+                    d[k]["min"], d[k]["max"] = float(sv.min()), float(sv.max())
+            if hasattr(t, "_group_size"):
+                d["group_size"] = t._group_size
+            return d
+        return {"cls": "Tensor", "shape": list(t.shape), "stride": list(t.stride()), "dtype": str(t.dtype)}
+    except Exception as e:
+        return {"describe_failed": type(e).__name__}
+
+
 def coarse(okinds):
     """Mechanism-level operand signature: classes in order, families as a set."""
     import re
@@ -195,6 +217,8 @@ class Monitor:
         sig["prop"] = prop
         if self.step_info:
             detail = dict(detail, step=self.step_info)
+        if getattr(self, "_cur_operands", None) is not None:
+            detail = dict(detail, operands_desc=self._cur_operands)
         ctx.violation(sig, detail)
 
     # -- __torch_dispatch__: C06 invariant on every quantized tensor an aten op returns -----------
@@ -300,6 +324,8 @@ class Monitor:
                real_exc, depth):
         ctx = self.ctx
         ksig = coarse(okinds)
+        self._cur_call = (func, args, kwargs)
+        self._cur_operands = [describe(a) for a in leaves if isinstance(a, torch.Tensor)][:4]
         ctx.count("monitored_calls")
         ctx.see("functions", name, cap=400)
         if shadow_exc is not None:
@@ -379,14 +405,27 @@ class Monitor:
                              dict(real=str(rv.dtype), shadow=str(s.dtype)))
                 failed = True
                 continue
-            bad = self._compare(name, args, kwargs, sh_args, sh_kwargs, r, rv, s, ksig)
+            bad = self._compare(name, args, kwargs, sh_args, sh_kwargs, r, rv, s, ksig, i)
             if bad:
                 failed = True
         if failed:
             self.taint(real_out)
 
     # -- comparison by class of operation ------------------------------------------------------------
-    def _compare(self, name, args, kwargs, sh_args, sh_kwargs, r, rv, s, ksig):
+    def _raw_shadow(self, name, func_args, index):
+        """Result of the same function on the literal dequantize() of every quantized operand (own layout)."""
+        func, args, kwargs = func_args
+        with torch.no_grad():
+            a2, k2 = pytree.tree_map(lambda x: oracles.plain(fp.unwrap_param(x).dequantize()).clone() if is_q(x) else (
+                x.detach().clone() if isinstance(x, torch.Tensor) and name in INPLACE else
+                (x.detach() if isinstance(x, torch.Tensor) else x)), (args, kwargs))
+            with torch._C.DisableTorchFunctionSubclass():
+                out = func(*a2, **k2)
+                if name in INPLACE:
+                    out = a2[0]
+        return pytree.tree_leaves(out)[index]
+
+    def _compare(self, name, args, kwargs, sh_args, sh_kwargs, r, rv, s, ksig, index=0):
         ctx = self.ctx
         if not (rv.is_floating_point() and s.is_floating_point()):
             same = torch.equal(rv, s)
@@ -448,6 +487,20 @@ class Monitor:
         fin = torch.isfinite(diff) & (tol > 0)
         if fin.any():
             ctx.maxstat("diff/tol:" + cls_, float((diff[fin] / tol[fin]).max()))
+        if bad.any() and cls_ in ("pass", "move", "rescale") and getattr(self, "_cur_call", None) is not None:
+            # Kernels may differ by a few ulp (or by summation order) between memory layouts: the literal reading of
+            # the property is the function applied to dequantize() in its own layout. Accept if that one agrees.
+            try:
+                s2 = self._raw_shadow(name, self._cur_call, index)
+                if isinstance(s2, torch.Tensor) and s2.shape == rv.shape and s2.dtype == rv.dtype:
+                    B2 = s2.to(F64)
+                    d2 = torch.where(torch.isnan(A) & torch.isnan(B2), torch.zeros_like(A), (A - B2).abs())
+                    d2 = torch.where(torch.isinf(A) & (A == B2), torch.zeros_like(d2), d2)
+                    if bool((d2 <= tol).all()):
+                        ctx.count("accepted_on_raw_layout_shadow")
+                        return False
+            except Exception:
+                pass
         if bad.any():
             w = oracles._first(bad, real=A, shadow=B, diff=diff, tol=tol)
             self._report("C05", dict(kind="value_differs:" + cls_, func=name, operands=ksig,
@@ -462,7 +515,7 @@ class Monitor:
             qs = [fp.unwrap_param(a) for a in pytree.tree_leaves(args) if is_q(a)]
             if is_q(r):
                 rs = oracles.plain(fp.inner(fp.unwrap_param(r))[0]["_scale"]).to(F64).abs()
-                if bool((rs[rs > 0] < sn).any()):
+                if bool((rs < sn).any()):
                     return "result_scale_subnormal"
             if cls_ == "contraction" and len(qs) >= 2:
                 s0 = oracles.plain(fp.inner(qs[0])[0]["_scale"]).to(F64).abs().max()
@@ -536,7 +589,9 @@ class Monitor:
                     bias_abs = b.abs().reshape(1, -1, 1, 1) if b is not None else 0.0
                 else:
                     return None
-                tol = num.dot_bound(ref, absdot, bias_abs, K, wd)
+                # + rounding of the dequantized operands themselves in the working dtype (the quantized kernels use
+                # the unrounded scale*code products): 2*eps(wd) per term of the dot product
+                tol = num.dot_bound(ref, absdot, bias_abs, K, wd) + 2 * num.eps(wd) * absdot
                 return tol, ref
         except Exception:
             return None
